@@ -32,7 +32,7 @@ CONFIGS = {
                  cfg(SUB_S=3, Garbled="{1, 2, 3, 5}", MaxBlocks=2, MaxOps=5, Acts='{"Register", "Add", "Mine", "Sub"}')),
     # restarts between any two actions (C03 at the design level)
     "MC_Restart": (cfg(Users="{1}", MaxBlocks=4, MaxOps=4, Acts='{"Register", "Add", "Mine", "Get", "Restart"}'),
-                   cfg(MaxBlocks=4, MaxOps=5, Acts='{"Register", "Add", "Mine", "Get", "Sub", "Restart"}')),
+                   cfg(Users="{1}", MaxBlocks=4, MaxOps=5, Acts='{"Register", "Add", "Mine", "Get", "Restart"}')),
     "MC_Auth": (cfg(MaxBlocks=1, MaxOps=4, SUB_D=1, Variants="{1}", Acts='{"Register", "Add", "Mine", "Get", "Sub", "BadSig"}'),
                 cfg(MaxBlocks=2, MaxOps=5, SUB_D=1, Variants="{1}", Acts='{"Register", "Add", "Mine", "Get", "Sub", "BadSig"}')),
 }
